@@ -403,7 +403,18 @@ func (w *vwWorld) newInst(t *testing.T, out *verifkit.Out, dsn, name string) *vw
 	}
 	wit, err := New(Opts{DB: db, PrivKey: w.wKeyPEM, KnownLogs: logs})
 	if err != nil {
-		t.Fatal(err)
+		// a witness that refuses a configuration containing entries whose ID string is not base64 of 32 bytes: go on with the
+		// decodable ones, so that the histories and their oracles still run (the property is about those)
+		out.Count("mode:new-refused-undecodable-log-ids")
+		w.logs = w.realLogs()
+		logs = map[string]ct.SignatureVerifier{}
+		for _, l := range w.logs {
+			sv, _ := ct.NewSignatureVerifier(&l.key.PublicKey)
+			logs[l.id] = *sv
+		}
+		if wit, err = New(Opts{DB: db, PrivKey: w.wKeyPEM, KnownLogs: logs}); err != nil {
+			t.Fatal(err)
+		}
 	}
 	var b strings.Builder
 	if w.canSign {
@@ -804,6 +815,10 @@ func (in *vwInst) step(r *verifkit.Rand) {
 				if !l.real {
 					bogus = append(bogus, l)
 				}
+			}
+			if len(bogus) == 0 {
+				in.update(w.unknown[r.Intn(len(w.unknown))], nil, false, c, nil, "unknown-log")
+				return
 			}
 			l := bogus[r.Intn(len(bogus))]
 			in.update(l.id, l, true, c, nil, "undecodable-log-id")
